@@ -365,7 +365,7 @@ StageClausesW(s, e, t, connS, connT) ==
         isRestoreS == e.ev = "restores" /\ Dom(e) /\ connS /\ HeadHasCommit(S)
     IN
     <<
-    Cl("C04_AddExact", {"C04", "C17"}, isAdd /\ Ok(e),
+    Cl("C04_AddExact", {"C04", "C17", "C02"}, isAdd /\ Ok(e),
         isAdd /\ Ok(e) => AddExact(s, t, ArgSet(e))),
     Cl("C04_AddRefuse", {"C04"}, isAdd /\ \E a \in ArgSet(e) : ~ArgKnownToAdd(S, a),
         isAdd /\ (\E a \in ArgSet(e) : ~ArgKnownToAdd(S, a)) => Refused(e) /\ Unchanged(s, t)),
